@@ -251,7 +251,10 @@ def Worker.pick : Nat → Worker → Picked
       else match taskGet w1.tasks a with
       | none => Worker.pick fuel w1
       | some t =>
-        if t.crumbs.any (fun c => w1.cancelled.contains c) then Worker.pick fuel w1
+        if t.crumbs.any (fun c => w1.cancelled.contains c) then
+          -- `self._tasks.pop(addr).cancel()`: a task that arrived after the CANCEL of an
+          -- ancestor will never run; forget it
+          Worker.pick fuel { w1 with tasks := taskErase w1.tasks a }
         else { w := w1, out := [], task := some t }
 
 def Worker.pickFuel (w : Worker) : Nat := 2 * (w.ready.length + w.delayed.length) + 2
@@ -338,20 +341,17 @@ def runBody (tbl : Table) : Nat → Run → Run × Outcome
       ({ r with evs := r.evs ++ [Ev.ret t.addr t.tag v] }, .done v)
 
 /-- the clean-up loop at the end of `_process_task_completion`:
-    `for mailbox_id in self._active_task.owned_mailboxes:` while `cancel` removes from that
-    very list - after a removal the iterator skips the next element. -/
-def completionLoop : Nat → Nat → Run → Run × Bool
-  | 0, _, r => (r, false)
-  | fuel + 1, i, r =>
-    match r.t.owned[i]? with
-    | none => (r, false)
-    | some m =>
-      match boxGet r.w.boxes m with
-      | some b =>
-        if b.ready then
-          completionLoop fuel (i + 1) { r with w := { r.w with boxes := boxErase r.w.boxes m } }
-        else completionLoop fuel (i + 1) (r.cancelBox m b)
-      | none => (r, true)           -- Worker.cancel: self._mailboxes[...] KeyError
+    `for mailbox_id in list(self._active_task.owned_mailboxes):` - over a copy of the list,
+    so every open future is either released (ready) or cancelled. -/
+def completionLoop : List Nat → Run → Run × Bool
+  | [], r => (r, false)
+  | m :: ms, r =>
+    match boxGet r.w.boxes m with
+    | some b =>
+      if b.ready then
+        completionLoop ms { r with w := { r.w with boxes := boxErase r.w.boxes m } }
+      else completionLoop ms (r.cancelBox m b)
+    | none => (r, true)             -- Worker.cancel: self._mailboxes[...] KeyError
 
 /-- `_process_task_completion` up to the clean-up loop: ship the result (locally: deposit it
     and tell the boss with UPDATE(-1)), remove the task from `_tasks` -/
@@ -368,7 +368,7 @@ def completionEnter (r : Run) (v : Val) : Run :=
 def processCompletion (r : Run) (v : Val) : Run × Bool :=
   match taskGet r.w.tasks r.t.addr with
   | none => (r, false)
-  | some _ => completionLoop (r.t.owned.length + 1) 0 (completionEnter r v)
+  | some _ => completionLoop r.t.owned (completionEnter r v)
 
 /-- `_process_await`; `none` = RuntimeError('Cannot await on a canceled task.') -/
 def processAwait (r : Run) (m : Nat) (nxt : Bool) : Option Run :=
